@@ -20,9 +20,15 @@ def generate(emit, lstr, lname, llist):
     from idpyoidc.client import client_auth
     # 1 usage_rules: is the client's token_usage_rules deep-copied before it is merged?
     copies = False
+    copies_cfg = True
     for n in ast.walk(_fn(AuthzHandling.usage_rules)):
         if isinstance(n, ast.Assign) and any(isinstance(t, ast.Name) and t.id == "_per_client" for t in n.targets):
             copies = _is_deepcopy(n.value)
+        # every assignment to the returned rules is a deep copy, an empty dict, or (after the copy) the per-client copy
+        if isinstance(n, ast.Assign) and any(isinstance(t, ast.Name) and t.id == "_usage_rules" for t in n.targets):
+            v = n.value
+            ok = _is_deepcopy(v) or (isinstance(v, ast.Dict) and not v.keys) or (isinstance(v, ast.Name) and v.id == "_per_client")
+            copies_cfg = copies_cfg and ok
     # 2 revocation endpoint: attributes of self assigned while processing a request
     self_writes = []
     for meth in ("process_request", "_revoke"):
@@ -55,6 +61,8 @@ def generate(emit, lstr, lname, llist):
     out = ["import IdpyVerif.Base", "namespace Idpy.Gen", "",
            "/-- AuthzHandling.usage_rules deep-copies cdb[client]['token_usage_rules'] before merging it -/",
            f"def usageRulesCopiesClient : Bool := {'true' if copies else 'false'}",
+           "/-- … and the provider-wide grant_config['usage_rules'] is deep-copied (not copied one level deep, not handed out) -/",
+           f"def usageRulesCopiesConfig : Bool := {'true' if copies_cfg else 'false'}",
            "/-- attributes of the revocation endpoint object assigned in process_request / _revoke -/",
            "def revocationSelfWrites : List String := " + llist(lname(x) for x in sorted(set(self_writes))),
            "/-- UserInfo.process_request assigns into self.config -/",
